@@ -1,39 +1,49 @@
 (* Properties/C06.v — call checking: arguments against parameter types, result
    type.  Only statements, `exact`, and Print Assumptions.
 
-   Call/Model.v: `bind` (concrete calls), `check_call` (first pass over the
-   parameters annotated with the type variable, the C15 solver, second pass
-   over every bound argument against the substituted annotation, default
-   return), `diagnosed`.  `val o` is the KnownValue of the literal argument
-   object o; `member o t` is runtime membership.  The general theorems are over
-   any value operations `O`; the last block instantiates them on the atom
-   fragment, where acceptance is the table dumped from the running
-   implementation and membership the table computed by CPython. *)
-From Coq Require Import List Bool Arith NArith Permutation.
+   Call/Model.v: `cbind` = the C05 binder (PV.Binder.Bind.bind: positional-only,
+   positional-or-keyword, *args, keyword-only, **kwargs parameters; positional,
+   keyword, *star and **star arguments) with the argument values re-attached;
+   `check_call` = first pass (bound generation through T_k, list[T_k],
+   dict[T_k, T_j], Callable[[T_k], r]; defaults; collected *args/**kwargs as
+   one bound), the C15 solver per type variable, second pass of every bound
+   argument against the substituted annotation, default return.  The general
+   theorems are over any value operations `O`; the last block instantiates them
+   on the atom fragment (acceptance = the table dumped from the running
+   implementation, membership = the table computed by CPython). *)
+From Coq Require Import List Bool Arith NArith.
 Import ListNotations.
 Require Import PV.TypeVar.Base PV.TypeVar.Model PV.TypeVar.Spec PV.TypeVar.Simple PV.Call.Model.
-Require Import PV.Proofs.CallBind PV.Proofs.CallMain PV.Proofs.CallAtoms PV.Proofs.SolveAtoms.
+Require Import PV.Binder.Kind PV.Binder.Sig PV.Binder.Bind PV.Binder.PyBind.
+Require PV.Proofs.BinderStar.
+Require Import PV.Proofs.CallMain PV.Proofs.CallAtoms PV.Proofs.SolveAtoms PV.Proofs.CallCore.
+Require PV.Core.Obj PV.Core.Val PV.Core.Cls PV.Core.Member PV.Core.CanAssignK PV.Proofs.C03Main.
 Require Import PV.Gen.Solve PV.Gen.SolveAtoms PV.Gen.CallObjs.
 
-(* binding: every parameter exactly once, in order; no argument dropped or duplicated *)
-Theorem C06_every_parameter_bound_once_in_order : forall (V Obj : Type) (s : @sig V) (c : @call Obj) b,
-  bind s c = Some b -> map fst b = params s.
-Proof. intros V Obj s c b H. exact (bind_go_params _ _ _ _ H). Qed.
-Print Assumptions C06_every_parameter_bound_once_in_order.
+(* C05 composed: "a call that binds" — for every valid signature and every concrete
+   call, the model reports a binding failure exactly when CPython cannot bind the call *)
+Theorem C06_binding_failure_iff_cpython_rejects : forall (V : Type) (s : @csig V) c,
+  valid_sig (sig_of s) = true -> concrete_call c = true -> names_nodup (map fst (a_kw c)) = true ->
+  (cbind s c = None <-> py_bind (sig_of s) (length (a_pos c)) (map fst (a_kw c)) = false).
+Proof. exact @binding_failure_iff_cpython_rejects. Qed.
+Print Assumptions C06_binding_failure_iff_cpython_rejects.
 
-Theorem C06_bound_arguments_are_the_call_arguments : forall (V Obj : Type) (s : @sig V) (c : @call Obj) b,
-  bind s c = Some b -> Permutation (bound_objs b) (cpos c ++ map snd (ckw c)).
-Proof. intros V Obj s c b H. exact (bind_go_objs _ _ _ _ H). Qed.
-Print Assumptions C06_bound_arguments_are_the_call_arguments.
+(* ... and with star arguments: a call that the model binds has an expansion of its
+   *args / **kwargs arguments that CPython binds (C05_bind_star_accept_sound composed) *)
+Theorem C06_bound_star_call_has_binding_expansion : forall (V : Type) (s : @csig V) c b,
+  valid_sig (sig_of s) = true -> names_nodup (map fst (a_kw c)) = true -> cbind s c = Some b ->
+  exists npos' kws', PV.Proofs.BinderStar.expansion (actuals_of c) npos' kws' /\ py_bind (sig_of s) npos' kws' = true.
+Proof. exact @bound_star_call_has_binding_expansion. Qed.
+Print Assumptions C06_bound_star_call_has_binding_expansion.
 
-(* non-generic signatures: one incompatible_argument per parameter with a
-   rejected argument, and nothing else *)
+(* signatures without type variables: one incompatible_argument per parameter with a
+   rejected argument value, and nothing else — all parameter kinds, star arguments included *)
 Theorem C06_nongeneric_diagnostics_are_the_rejected_parameters :
-  forall (V : Type) (O : ops V) limit (Obj : Type) (val : Obj -> V) s c b,
-  no_vars s = true -> bind s c = Some b ->
-  forall d, In d (fst (check_call O limit val s c)) <->
-    exists p ba t o, In (p, ba) b /\ d = IncompatibleArgument (pname p) /\
-      ann p = AnnTy t /\ In o (objs_of ba) /\ acc O t (val o) = false.
+  forall (V : Type) (O : ops V) limit s c b,
+  no_tv s = true -> cbind s c = Some b ->
+  forall d, In d (fst (check_call O limit s c)) <->
+    exists p vs x, In (p, BVals vs) b /\ d = IncompatibleArgument (pname (cp p)) /\
+      In x vs /\ fits1 O (fun _ => any_generic O) (ann p) x = false.
 Proof. exact @nongeneric_diagnostics. Qed.
 Print Assumptions C06_nongeneric_diagnostics_are_the_rejected_parameters.
 
@@ -41,48 +51,74 @@ Print Assumptions C06_nongeneric_diagnostics_are_the_rejected_parameters.
 Theorem C06_diagnosed_iff_some_argument_not_member :
   forall (V : Type) (O : ops V) limit (Obj : Type) (val : Obj -> V) (member : Obj -> V -> bool),
   (forall t o, acc O t (val o) = member o t) ->
-  forall s c b, no_vars s = true -> bind s c = Some b ->
-  (diagnosed O limit val s c = true <->
-   exists p ba t o, In (p, ba) b /\ ann p = AnnTy t /\ In o (objs_of ba) /\ member o t = false).
+  forall s c b, no_tv s = true -> cbind s c = Some b -> literal_args val b ->
+  (diagnosed O limit s c = true <->
+   exists p vs t o, In (p, BVals vs) b /\ ann p = AnnTy t /\ In (AV (val o)) vs /\ member o t = false).
 Proof. exact @nongeneric_diagnosed_iff_nonmember. Qed.
 Print Assumptions C06_diagnosed_iff_some_argument_not_member.
 
-(* generic or not: an accepted call comes with a solution under which every
-   argument is a member of the substituted parameter type, and the inferred
-   type is the substituted return annotation — otherwise an error is reported *)
+(* generic or not, any number of type variables: an accepted call comes with a value for
+   every type variable under which every bound argument value fits the substituted
+   parameter type, and the inferred type is the substituted return annotation —
+   otherwise an error is reported *)
 Theorem C06_accepted_call_arguments_fit_substituted_types :
-  forall (V : Type) (O : ops V) limit (Obj : Type) (val : Obj -> V) (member : Obj -> V -> bool),
-  (forall t o, acc O t (val o) = member o t) ->
-  forall s c, diagnosed O limit val s c = false ->
-  exists b sol, bind s c = Some b /\ snd (check_call O limit val s c) = inferred O sol (ret s) /\
-    forall p ba t o, In (p, ba) b -> sub sol (ann p) = Some t -> In o (objs_of ba) -> member o t = true.
+  forall (V : Type) (O : ops V) limit s c,
+  diagnosed O limit s c = false ->
+  exists b sol, cbind s c = Some b /\ snd (check_call O limit s c) = inferred O sol (cret s) /\
+    forall p vs x, In (p, BVals vs) b -> In x vs -> fits1 O sol (ann p) x = true.
 Proof. exact @accepted_call_arguments_fit. Qed.
 Print Assumptions C06_accepted_call_arguments_fit_substituted_types.
 
-(* with C15 (solution accepts every lower bound): the second pass never reports
-   a parameter annotated with the bare type variable, so for a call that binds
-   accepted <=> each T-argument fits the declaration on its own, the bounds are
-   solvable, and every other argument is a member of its declared type *)
-Theorem C06_generic_call_accepted_iff :
-  forall (V : Type) (O : ops V) limit (Obj : Type) (val : Obj -> V) (member : Obj -> V -> bool),
-  (forall t o, acc O t (val o) = member o t) -> acc_laws O ->
-  forall s c b, bind s c = Some b ->
-  (diagnosed O limit val s c = false <->
-   pass1_fail O limit val (tdecl s) b = None /\
-   is_err (mresolve O limit (flat_map (arg_bounds (tdecl s)) (t_values val b))) = false /\
-   forall p ba t o, In (p, ba) b -> ann p = AnnTy t -> In o (objs_of ba) -> member o t = true).
-Proof. exact @generic_accepted_iff. Qed.
-Print Assumptions C06_generic_call_accepted_iff.
+(* the C15 solver-level findings (incomparable / Any upper bounds, constraints vs upper
+   bounds) cannot surface in an accepted call: every callback's parameter type — an upper
+   bound of T_k — accepts the value chosen for T_k, and its result is accepted by the value
+   chosen for its result variable *)
+Theorem C06_accepted_call_respects_callback_bounds :
+  forall (V : Type) (O : ops V) limit s c,
+  diagnosed O limit s c = false ->
+  exists b sol, cbind s c = Some b /\
+    forall p vs k r pv qv, In (p, BVals vs) b -> ann p = AnnFun k r -> In (AFun pv qv) vs ->
+      acc O pv (sol k) = true /\ (forall j, r = RVar j -> acc O (sol j) qv = true).
+Proof. exact @accepted_call_respects_callback_bounds. Qed.
+Print Assumptions C06_accepted_call_respects_callback_bounds.
 
-(* result type: for `-> T` the inferred type contains every argument passed for a
-   parameter annotated T (in particular the one an identity-like body returns) *)
+(* with C15 (the solution accepts every lower bound): once the first pass and the solver
+   succeed, an argument passed positionally or by keyword for a parameter annotated T_k is
+   accepted by the value chosen for T_k — the second pass never reports it *)
+Theorem C06_typevar_argument_accepted_by_solution :
+  forall (V : Type) (O : ops V) limit, acc_laws O ->
+  forall s (b : list (@cparam V * @barg V)) l p k v,
+  pass1 O limit s b = inr l -> resolve_ok O limit l = true ->
+  In (p, BVals [AV v]) b -> ann p = AnnVar k ->
+  acc O (sol_of O limit l k) v = true.
+Proof. exact @typevar_argument_accepted_by_solution. Qed.
+Print Assumptions C06_typevar_argument_accepted_by_solution.
+
+(* ... and the same through the generic forms: the element type of a list[T_k] argument, the
+   key / value types of a dict[T_k, T_j] argument and the result type of a Callable[.., T_j]
+   argument are accepted by the values chosen.  The second pass can therefore only fail on
+   concretely typed parameters and on a callback's parameter type (the upper-bound position) *)
+Theorem C06_generic_lower_positions_accepted :
+  forall (V : Type) (O : ops V) limit, acc_laws O ->
+  forall s (b : list (@cparam V * @barg V)) l p,
+  pass1 O limit s b = inr l -> resolve_ok O limit l = true ->
+  (forall k e, In (p, BVals [AList e]) b -> ann p = AnnList k -> acc O (sol_of O limit l k) e = true) /\
+  (forall k j kk vv, In (p, BVals [ADict kk vv]) b -> ann p = AnnDict k j ->
+      acc O (sol_of O limit l k) kk = true /\ acc O (sol_of O limit l j) vv = true) /\
+  (forall k j pv qv, In (p, BVals [AFun pv qv]) b -> ann p = AnnFun k (RVar j) ->
+      acc O (sol_of O limit l j) qv = true).
+Proof. exact @generic_lower_positions_accepted. Qed.
+Print Assumptions C06_generic_lower_positions_accepted.
+
+(* result type: for `-> T_k` the inferred type contains every literal passed for a
+   parameter annotated T_k (in particular the one an identity-like body returns) *)
 Theorem C06_identity_result_member :
   forall (V : Type) (O : ops V) limit (Obj : Type) (val : Obj -> V) (member : Obj -> V -> bool),
   (forall t o, acc O t (val o) = member o t) ->
-  forall s c b p ba o,
-  ret s = AnnVar -> diagnosed O limit val s c = false -> bind s c = Some b ->
-  In (p, ba) b -> ann p = AnnVar -> In o (objs_of ba) ->
-  member o (snd (check_call O limit val s c)) = true.
+  forall s c b p k o,
+  cret s = RVar k -> diagnosed O limit s c = false -> cbind s c = Some b ->
+  In (p, BVals [AV (val o)]) b -> ann p = AnnVar k ->
+  member o (snd (check_call O limit s c)) = true.
 Proof. exact @identity_result_member. Qed.
 Print Assumptions C06_identity_result_member.
 
@@ -92,36 +128,61 @@ Proof. exact acc_literal_is_member. Qed.
 Print Assumptions C06_atoms_acceptance_is_runtime_membership.
 
 Theorem C06_atoms_diagnosed_iff_some_argument_not_member : forall s c b,
-  no_vars s = true -> bind s c = Some b ->
-  (diagnosed atom_ops rrs_limit obj_val s c = true <->
-   exists p ba t o, In (p, ba) b /\ ann p = AnnTy t /\ In o (objs_of ba) /\ member o t = false).
+  no_tv s = true -> cbind s c = Some b -> literal_args obj_val b ->
+  (diagnosed atom_ops rrs_limit s c = true <->
+   exists p vs t o, In (p, BVals vs) b /\ ann p = AnnTy t /\ In (AV (obj_val o)) vs /\ member o t = false).
 Proof. exact (nongeneric_diagnosed_iff_nonmember atom_ops rrs_limit obj_val member acc_literal_is_member). Qed.
 Print Assumptions C06_atoms_diagnosed_iff_some_argument_not_member.
 
-Theorem C06_atoms_generic_call_accepted_iff : forall s c b, bind s c = Some b ->
-  (diagnosed atom_ops rrs_limit obj_val s c = false <->
-   pass1_fail atom_ops rrs_limit obj_val (tdecl s) b = None /\
-   is_err (mresolve atom_ops rrs_limit (flat_map (arg_bounds (tdecl s)) (t_values obj_val b))) = false /\
-   forall p ba t o, In (p, ba) b -> ann p = AnnTy t -> In o (objs_of ba) -> member o t = true).
-Proof. exact (generic_accepted_iff atom_ops rrs_limit obj_val member acc_literal_is_member atom_laws). Qed.
-Print Assumptions C06_atoms_generic_call_accepted_iff.
+Theorem C06_atoms_typevar_argument_accepted_by_solution :
+  forall s (b : list (@cparam (@sval atom) * @barg (@sval atom))) l p k v,
+  pass1 atom_ops rrs_limit s b = inr l -> resolve_ok atom_ops rrs_limit l = true ->
+  In (p, BVals [AV v]) b -> ann p = AnnVar k ->
+  acc atom_ops (sol_of atom_ops rrs_limit l k) v = true.
+Proof. exact (typevar_argument_accepted_by_solution atom_ops rrs_limit atom_laws). Qed.
+Print Assumptions C06_atoms_typevar_argument_accepted_by_solution.
 
-Theorem C06_atoms_identity_result_member : forall s c b p ba o,
-  ret s = AnnVar -> diagnosed atom_ops rrs_limit obj_val s c = false -> bind s c = Some b ->
-  In (p, ba) b -> ann p = AnnVar -> In o (objs_of ba) ->
-  member o (snd (check_call atom_ops rrs_limit obj_val s c)) = true.
+Theorem C06_atoms_identity_result_member : forall s c b p k o,
+  cret s = RVar k -> diagnosed atom_ops rrs_limit s c = false -> cbind s c = Some b ->
+  In (p, BVals [AV (obj_val o)]) b -> ann p = AnnVar k ->
+  member o (snd (check_call atom_ops rrs_limit s c)) = true.
 Proof. exact (identity_result_member atom_ops rrs_limit obj_val member acc_literal_is_member). Qed.
 Print Assumptions C06_atoms_identity_result_member.
 
-(* non-trivial inputs: def f(p0: T, p1: T, *, k: int = 0) -> T with T: (int, str) *)
+(* C03 composed: over the merged Core value model (every class table `ct`; any operations
+   whose acceptance of a literal is Core's model `ca` of T.can_assign(KnownValue(o))), with
+   Core's structural membership as the specification, on calls whose (declared type,
+   literal) pairs are inside C03's guard `ok` *)
+Theorem C06_core_diagnosed_iff_some_argument_not_member_partial :
+  forall (ct : PV.Core.Cls.class_table) (O : ops PV.Core.Val.val) limit,
+  (forall T o, acc O T (kv o) = PV.Core.CanAssignK.ca ct T o) ->
+  forall s c b, no_tv s = true -> cbind s c = Some b -> literal_args kv b ->
+  (forall p vs T o, In (p, BVals vs) b -> ann p = AnnTy T -> In (AV (kv o)) vs -> PV.Proofs.C03Main.ok ct T o) ->
+  (diagnosed O limit s c = true <->
+   exists p vs T o, In (p, BVals vs) b /\ ann p = AnnTy T /\ In (AV (kv o)) vs /\ PV.Core.Member.member ct T o = false).
+Proof. exact core_diagnosed_iff_nonmember_partial. Qed.
+Print Assumptions C06_core_diagnosed_iff_some_argument_not_member_partial.
+
+(* non-trivial inputs:  def f(p0: T, /, p1: Callable[[T], U], *va: T, k: int = 0) -> T   (T, U unbounded) *)
 Example C06_examples :
-  let s := mk_sig [mk_param 0%N PosOrKw false AnnVar; mk_param 1%N PosOrKw false AnnVar;
-                   mk_param 2%N KwOnly true (AnnTy (SU [A_int]))]
-                  (Constrained [SU [A_int]; SU [A_str]]) AnnVar in
-  check_call atom_ops rrs_limit obj_val s (mk_call [O_litTrue; O_lit1] []) = ([], SU [A_int]) /\
-  fst (check_call atom_ops rrs_limit obj_val s (mk_call [O_lit1; O_lita] [])) = [CannotResolve] /\
-  fst (check_call atom_ops rrs_limit obj_val s (mk_call [O_lit1_5] [(1%N, O_lit1)])) = [IncompatibleArgument 0%N] /\
-  fst (check_call atom_ops rrs_limit obj_val s (mk_call [O_lit1; O_lit2] [(2%N, O_lita)])) = [IncompatibleArgument 2%N] /\
-  fst (check_call atom_ops rrs_limit obj_val s (mk_call [O_lit1] [])) = [IncompatibleCall].
+  let P n k d := mkParam n k d in
+  let s := mk_csig [mk_cparam (P 0%N PO false) (AnnVar 0) None;
+                    mk_cparam (P 1%N POK false) (AnnFun 0 (RVar 1)) None;
+                    mk_cparam (P 2%N VP false) (AnnVar 0) None;
+                    mk_cparam (P 3%N KO true) (AnnTy (SU [A_int])) (Some (AV (obj_val O_lit0)))]
+                   [Unbounded; Unbounded] (RVar 0) in
+  let g := AFun (SU [A_int]) (SU [A_str]) in
+  (* f(True, g_int_str, 1)  -> accepted, T := Literal[True, 1] *)
+  check_call atom_ops rrs_limit s (mk_ccall [AV (obj_val O_litTrue); g; AV (obj_val O_lit1)] None [] None)
+    = ([], SU [A_litTrue; A_lit1]) /\
+  (* f("a", g_int_str): the callback's parameter type int is an upper bound of T: solver error *)
+  fst (check_call atom_ops rrs_limit s (mk_ccall [AV (obj_val O_lita); g] None [] None)) = [CannotResolve] /\
+  (* f(1, p1=g, k="a"): k rejected *)
+  fst (check_call atom_ops rrs_limit s (mk_ccall [AV (obj_val O_lit1)] None [(1%N, g); (3%N, AV (obj_val O_lita))] None))
+    = [IncompatibleArgument 3%N] /\
+  (* f(p0=1, p1=g): positional-only parameter passed by keyword *)
+  fst (check_call atom_ops rrs_limit s (mk_ccall [] None [(0%N, AV (obj_val O_lit1)); (1%N, g)] None)) = [IncompatibleCall] /\
+  (* f( *xs) with xs: list[int]: p0 and *va take int, p1 takes int too and is rejected *)
+  fst (check_call atom_ops rrs_limit s (mk_ccall [] (Some (AV (SU [A_int]))) [] None)) = [IncompatibleArgument 1%N].
 Proof. vm_compute. repeat split. Qed.
 Print Assumptions C06_examples.
